@@ -487,6 +487,24 @@ func pnftViewsAgree(p *Prog, r *Report, kp func(string, string) string) {
 	}
 	sort.Strings(fields)
 	r.Floor("pnft-view-fields", len(fields), 10)
+	// every field of a view is a field of the stored token itself (the x/nft record or its unpacked metadata) or the owner
+	// lookup — nothing computed at read time from other state (a value inherited from the denom changes when the denom does)
+	for _, v := range views {
+		var bad []string
+		for _, f := range fields {
+			d := v.desc[f]
+			ok := d == "GetOwner(class, token).String()" || strings.HasPrefix(d, "NFT.") && !strings.ContainsAny(d, "(, ") || strings.HasPrefix(d, "META.") && !strings.ContainsAny(d, "(, ")
+			if f == "Owner" {
+				ok = ok || !strings.Contains(d, "phi(") // an owner handed in by the caller (already looked up)
+			}
+			if !ok {
+				bad = append(bad, fmt.Sprintf("%s = %s", f, clip(d, 120)))
+			}
+		}
+		r.Check(len(bad) == 0, kp("ORIGIN", FuncName(v.fn)+"#view-fields-are-the-stored-token's"),
+			"a token view shows the stored token: every field is a field of its x/nft record or of its unpacked metadata (or the owner lookup)", v.pos,
+			fmt.Sprintf("%d fields from NFT/META/owner lookup", len(fields)), "fields not taken from the stored token: "+strings.Join(bad, "; ")+" — what the view shows can change without the token changing")
+	}
 	for _, v := range views[1:] {
 		var diffs []string
 		for _, f := range fields {
